@@ -301,21 +301,29 @@ def run_suite_hypothesis(suite, prop_id, known_open, n_examples, seed, tier,
     import hypothesis
     from hypothesis import HealthCheck, Phase, given, settings
 
-    shrink_budget = 45.0 if tier == "quick" else 240.0
-    state = {"last": None, "first_fail_t": None, "best_hash": None}
+    shrink_budget = 30.0 if tier == "quick" else 240.0
+    state = {"last": None, "first_fail_t": None, "best_hash": None,
+             "sig": None, "other": set()}
 
     def body(case):
         plain = to_plain(case)
         if (state["first_fail_t"] is not None
-                and time.time() - state["first_fail_t"] > shrink_budget
-                and case_hash(plain) != state["best_hash"]):
-            return          # shrink budget used up: let the shrinker finish
+                and time.time() - state["first_fail_t"] > shrink_budget):
+            # shrink budget used up: report everything as failing so that the
+            # shrinker converges at once; the best case found so far is kept
+            raise Violation(state["sig"], "shrink budget exhausted")
         try:
             run_one(suite, prop_id, known_open, plain,
                     stats if state["first_fail_t"] is None else None)
         except Violation as v:
             if state["first_fail_t"] is None:
                 state["first_fail_t"] = time.time()
+                state["sig"] = v.signature
+            elif v.signature != state["sig"]:
+                # keep the shrinker on the first root cause; other signatures
+                # are found by the other shards / later runs
+                state["other"].add(v.signature)
+                return
             state["last"] = (plain, v.signature, v.detail)
             state["best_hash"] = case_hash(plain)
             raise
@@ -347,7 +355,8 @@ def run_suite_hypothesis(suite, prop_id, known_open, n_examples, seed, tier,
     if state["last"] is not None:
         plain, sig, det = state["last"]
         stats.violation = {"signature": sig, "detail": det, "case": plain,
-                           "suite": suite.name, "flaky": stats.flaky}
+                           "suite": suite.name, "flaky": stats.flaky,
+                           "seen_while_shrinking": sorted(state["other"])}
 
 
 def run_suite_enumerated(suite, prop_id, known_open, shard, nshards, stats):
@@ -593,6 +602,9 @@ def merge_and_report(prop_id, tier, seed, nshards, meta, results, errors,
         print("VIOLATION property=%s replay=%s" % (prop_id, path))
         print("  signature: %s%s" % (sig, "  (flaky)" if viol.get("flaky") else ""))
         print("  detail: %s" % viol["detail"][:1500].replace("\n", "\n    "))
+        if viol.get("seen_while_shrinking"):
+            print("  other signatures seen while shrinking: %s"
+                  % ", ".join(viol["seen_while_shrinking"]))
         rc = 1
     if rc == 0:
         if errors:
